@@ -101,6 +101,12 @@ CHECKS["C07"] = ("exploration",
     "Month-name date ranges fail under the default beam (recorded known finding, matched by notation, depth and failed clause) and are asserted with max_stack_depth=0 instead.",
     "DESIGN.md 4 (C07)")
 
+CHECKS["C08"] = ("exploration",
+    "Complete enumeration of digits 0..120 and all number words x all unit spellings against the written (amount, unit); Hypothesis-generated '<date[ time]> for N unit' cases against a date.toordinal/add_months reference model; metamorphic iff-relation for duration vs. date-range consistency (candidate built by a consistency rule exists iff the range is N days long)",
+    "Amount/unit preservation is enumerated completely over the frozen number and unit vocabulary; interval ends are compared with stdlib calendar arithmetic incl. month-end clipping; the consistency clause is checked in both directions (accepted iff consistent).",
+    "Colliding short forms (N h, N night, N m) are asserted on the candidate stream only.",
+    "DESIGN.md 4 (C08)")
+
 NOT_YET = "check not built yet in this round (see DESIGN.md section 4 for the planned generated-input check)"
 
 
